@@ -5,6 +5,7 @@ package main
 import (
 	"regexp"
 
+	"github.com/google/pprof/internal/driver"
 	"github.com/google/pprof/profile"
 )
 
@@ -49,8 +50,8 @@ func runC11(c *Ctx) {
 		if keep != nil {
 			rxs = append(rxs, *keep)
 		}
-		tbl := matchTable(c11Universe(p), rxs)
-		in := L(S("prune"), DumpProfile(p), S(drop), optS(keep), tbl)
+		tbl := c06MatchTable(c11Universe(p), rxs)
+		in := L(S("prune"), DumpProfile(p), S(drop), c06OptS(keep), tbl)
 		d, err := regexp.Compile(drop)
 		if err != nil {
 			return
@@ -61,48 +62,48 @@ func runC11(c *Ctx) {
 				return
 			}
 		}
-		before := Render(L(obsProfile(p)...))
-		obs := guard(func() Term { p.Prune(d, k); return L(append([]Term{S("ok")}, obsProfile(p)...)...) })
-		c.Case(gen, in, obs, before != Render(L(obsProfile(p)...)), "op:prune")
+		before := Render(L(c06ObsProfile(p)...))
+		obs := c06Guard(func() Term { p.Prune(d, k); return L(append([]Term{S("ok")}, c06ObsProfile(p)...)...) })
+		c.Case(gen, in, obs, before != Render(L(c06ObsProfile(p)...)), "op:prune")
 	}
 	pruneFrom := func(gen string, p *profile.Profile, rx string) {
 		d, err := regexp.Compile(rx)
 		if err != nil {
 			return
 		}
-		in := L(S("prunefrom"), DumpProfile(p), S(rx), matchTable(c11Universe(p), []string{rx}))
-		before := Render(L(obsProfile(p)...))
-		obs := guard(func() Term { p.PruneFrom(d); return L(append([]Term{S("ok")}, obsProfile(p)...)...) })
-		c.Case(gen, in, obs, before != Render(L(obsProfile(p)...)), "op:prunefrom")
+		in := L(S("prunefrom"), DumpProfile(p), S(rx), c06MatchTable(c11Universe(p), []string{rx}))
+		before := Render(L(c06ObsProfile(p)...))
+		obs := c06Guard(func() Term { p.PruneFrom(d); return L(append([]Term{S("ok")}, c06ObsProfile(p)...)...) })
+		c.Case(gen, in, obs, before != Render(L(c06ObsProfile(p)...)), "op:prunefrom")
 	}
 	removeUn := func(gen string, p *profile.Profile) {
 		rxs := []string{"^(" + p.DropFrames + ")$", "^(" + p.KeepFrames + ")$"}
-		in := L(S("removeun"), DumpProfile(p), matchTable(c11Universe(p), rxs))
-		before := Render(L(obsProfile(p)...))
-		obs := guard(func() Term {
+		in := L(S("removeun"), DumpProfile(p), c06MatchTable(c11Universe(p), rxs))
+		before := Render(L(c06ObsProfile(p)...))
+		obs := c06Guard(func() Term {
 			st := "ok"
 			if err := p.RemoveUninteresting(); err != nil {
 				st = "err"
 			}
-			return L(append([]Term{S(st)}, obsProfile(p)...)...)
+			return L(append([]Term{S(st)}, c06ObsProfile(p)...)...)
 		})
-		c.Case(gen, in, obs, before != Render(L(obsProfile(p)...)), "op:removeun")
+		c.Case(gen, in, obs, before != Render(L(c06ObsProfile(p)...)), "op:removeun")
 	}
 
 	// ---- the witnesses of the known findings are always generated
 	prune("finding-F14", c11Witness14(), "m1", nil)
 	pruneFrom("finding-F15", c11Witness15(), "m1")
 
-	kn := stackKnobs{Names: c11Plain, Files: []string{"a.c"}, MapFiles: []string{"bin"}, MaxFuncs: 4, MaxLocs: 4, MaxLines: 3,
+	kn := c06StackKnobs{Names: c11Plain, Files: []string{"a.c"}, MapFiles: []string{"bin"}, MaxFuncs: 4, MaxLocs: 4, MaxLines: 3,
 		MaxSamples: 3, MaxDepth: 4, Unsym: true, Empty: true, Labels: true, NoMap: true}
 	knMeta := kn
 	knMeta.Names = c11Names
 	knMeta.MaxFuncs = 6
 	pick := func() *profile.Profile {
 		if r.P(1, 3) {
-			return genStacks(r, knMeta)
+			return c06GenStacks(r, knMeta)
 		}
-		return genStacks(r, kn)
+		return c06GenStacks(r, kn)
 	}
 	for i := 0; i < c.Budget(700, 10000); i++ {
 		drop := PickS(r, c11Drops)
@@ -123,6 +124,90 @@ func runC11(c *Ctx) {
 		p.KeepFrames = PickS(r, c11Keeps)
 		removeUn("removeun-rand", p)
 	}
+	// ---- the call site: fetchProfiles (internal/driver/fetch.go) on one in-memory source must apply
+	// RemoveUninteresting exactly once, whatever the mappings' HasFunctions/HasFilenames flags say
+	fetch := func(gen string, p *profile.Profile) {
+		rxs := []string{"^(" + p.DropFrames + ")$", "^(" + p.KeepFrames + ")$"}
+		in := L(S("fetch"), DumpProfile(p), c06MatchTable(c11Universe(p), rxs))
+		before := Render(c11FreeSamples(p))
+		obs := c06Guard(func() Term {
+			q, err := driver.VerifC11Fetch(p)
+			if err != nil {
+				return L(S("err"), S(err.Error()))
+			}
+			return L(S("ok"), c11FreeSamples(q))
+		})
+		mixed := false
+		for _, m := range p.Mapping {
+			if !m.HasFunctions {
+				mixed = true
+			}
+		}
+		tag := "mappings:all-have-functions"
+		if mixed {
+			tag = "mappings:some-without-functions"
+		}
+		c.Case(gen, in, obs, before != Render(obs), "op:fetch", tag)
+	}
+	fetch("fetch-twice-witness", c11WitnessTwice())
+	knF := kn
+	knF.MapFiles = []string{"bin", "libx.so", "[vdso]"}
+	knFM := knMeta
+	knFM.MapFiles = knF.MapFiles
+	for i := 0; i < c.Budget(400, 6000); i++ {
+		var p *profile.Profile
+		if r.P(1, 3) {
+			p = c06GenStacks(r, knFM)
+		} else {
+			p = c06GenStacks(r, knF)
+		}
+		for _, m := range p.Mapping {
+			m.HasFunctions, m.HasFilenames, m.HasLineNumbers, m.HasInlineFrames = r.P(2, 3), r.Bool(), r.Bool(), r.Bool()
+		}
+		if i%4 == 0 { // fully symbolized
+			for _, m := range p.Mapping {
+				m.HasFunctions = true
+			}
+		}
+		if !r.P(1, 10) {
+			p.DropFrames = PickS(r, c11Drops)
+		}
+		p.KeepFrames = PickS(r, c11Keeps)
+		fetch("fetch-rand", p)
+	}
+}
+
+// c11FreeSamples renders the samples of p without ids: values, labels and, leaf first, one
+// (function name, file, line) per inline line or the address of an unsymbolized location.
+func c11FreeSamples(p *profile.Profile) Term {
+	var ss []Term
+	for _, s := range p.Sample {
+		d := DumpSample(s).(tL)
+		var fr []Term
+		for _, l := range s.Location {
+			if len(l.Line) == 0 {
+				fr = append(fr, L(ZU(l.Address)))
+			}
+			for _, ln := range l.Line {
+				fr = append(fr, L(S(ln.Function.Name), S(ln.Function.Filename), Z(ln.Line)))
+			}
+		}
+		ss = append(ss, L(d.l[1], d.l[2], d.l[3], d.l[4], L(fr...)))
+	}
+	return L(ss...)
+}
+
+// leaf [m2] <- root [f1 m1 f3] with drop "m1|m2": one pass leaves f3 <- m2 (F14 class), a second pass
+// would cut m2 as well, so applying RemoveUninteresting twice is observable
+func c11WitnessTwice() *profile.Profile {
+	p := c11Witness14()
+	p.Function[3].Name, p.Function[3].SystemName = "m2", "m2"
+	p.Mapping = []*profile.Mapping{{ID: 1, Start: 0x1000, Limit: 0x2000, File: "bin", HasFunctions: true},
+		{ID: 2, Start: 0x3000, Limit: 0x4000, File: "[vdso]"}}
+	p.Location[0].Mapping, p.Location[0].Address = p.Mapping[0], 0x1001
+	p.Location[1].Mapping, p.Location[1].Address = p.Mapping[1], 0x3001
+	p.DropFrames = "m1|m2"
+	return p
 }
 
 // [f3 <- m1 <- f1] <- x with "m1" dropped: the root location is mixed (F14)
